@@ -12,6 +12,8 @@
 //	         own, on the application's context, several tries at once, arguments, terminal script
 //	refuse   scripted schedule through the verif hook in pipc.Try: the finally handler has failed
 //	         before the success/fail handler is submitted
+//	orphan   nested try, finally fails while the try goroutine naps at the hook: the other
+//	         handler is submitted into a scope that has ended but is accepted by the task manager
 //	witness  the minimal witness programs of the known finding C16-F1, verbatim
 package main
 
@@ -27,9 +29,9 @@ type sizes struct{ exhRounds, rand, refuse, orphan, witness int }
 
 func tierSizes(tier string) sizes {
 	if tier == "thorough" {
-		return sizes{exhRounds: 10, rand: 40000, refuse: 800, orphan: 3200, witness: 600}
+		return sizes{exhRounds: 10, rand: 40000, refuse: 800, orphan: 9600, witness: 600}
 	}
-	return sizes{exhRounds: 2, rand: 3600, refuse: 96, orphan: 320, witness: 80}
+	return sizes{exhRounds: 2, rand: 3600, refuse: 96, orphan: 1600, witness: 80}
 }
 
 var procCycle = []int{4, 1, 2, 8, 2, 4, 16, 2}
@@ -60,7 +62,12 @@ func plan(tier string, seed int64) []sup.Batch {
 	var bs []sup.Batch
 	bs = append(bs, chunkVar("witness", "witness", z.witness, 2, 1500)...)
 	bs = append(bs, chunkVar("refuse", "refuse", z.refuse, 2, 1500)...)
-	bs = append(bs, chunkVar("orphan", "orphan", z.orphan, 4, 1500)...)
+	// the orphan schedule needs parallelism and its failure is process-fatal: many small batches
+	ob := chunkVar("orphan", "orphan", z.orphan, z.orphan/100, 1500)
+	for i := range ob {
+		ob[i].Procs = []int{4, 2, 8, 2}[i%4]
+	}
+	bs = append(bs, ob...)
 	bs = append(bs, chunkVar("exh", "exh", exhTotal*z.exhRounds, nb, 1500)...)
 	bs = append(bs, chunkVar("rand", "rand", z.rand, nb, 1500)...)
 	return bs
@@ -309,7 +316,7 @@ func main() {
 		Race:  true,
 		Rule: "exh: all 8×4×4×4 combinations of body kind (ok / fails by return / fails by append and keeps running / fails at the 2nd command / nested task ok / nested task fails / nested try whose body fails / nested try whose finally fails) and success, fail, finally handler kind (absent / ok / fails by return / fails by append), each through the terminal service and through the application's argument list; " +
 			"rand: random pip:try programs (1–3 body commands failing at any position, nested pip:run tasks and nested tries, handlers of 1–2 commands, holds) run on a context of their own, on the application's context, 2–4 at the same time, from the argument list and from a terminal script; " +
-			"refuse: finally failed before the other handler is submitted (verif hook); witness: the recorded minimal programs of C16-F1. " +
+			"refuse: finally failed before the other handler is submitted (verif hook, scripted); orphan: the same inside a nested try (verif hook, nap); witness: the recorded minimal programs of C16-F1. " +
 			"distinct = distinct (driver, program text); non-trivial = at least one handler has to run",
 		Assumptions: []string{
 			"the finally handler 'runs' when at least one of its commands began; a handler that is cut short because a sibling handler failed meanwhile is not judged (the statement only says which handlers run)",
